@@ -240,6 +240,16 @@ corp_struct!(Node { label: String => "label", kids: Vec<Tree> => "kids" });
 corp_struct!(Tree { root: Option<Box<Node>> => "root", size: Nat => "size" });
 corp_struct!(Big { a: u128 => "a", b: i128 => "b", c: Nat => "c", d: Int => "d", e: Vec<Nat> => "e", f: Vec<Int> => "f", g: BTreeMap<String, Int> => "g", h: BTreeMap<u8, Nat> => "h" });
 
+// zero-width composite types (no bytes on the wire for a value), also nested
+#[derive(CandidType, Deserialize, Debug, Clone)] pub struct Empty0 {}
+impl Corp for Empty0 {
+    fn decl(d: &mut Decl) -> String { d.named("Empty0", |d| d.record(vec![])) }
+    fn absv(&self) -> Value { rec_val(vec![]) }
+    fn gen(_g: &mut StdRng, _d: u32) -> Self { Empty0 {} }
+    fn same(&self, _o: &Self) -> bool { true }
+}
+corp_struct!(Marker { unit: Empty0 => "unit" });
+corp_struct!(Marker2 { a: Marker => "a", r: Reserved => "r", u: () => "u" });
 #[derive(CandidType, Deserialize, Debug, Clone)] pub struct Unit;
 impl Corp for Unit {
     fn decl(d: &mut Decl) -> String { d.prim("null") }
